@@ -259,6 +259,6 @@ class IndividualData:
         df_covariates = pd.DataFrame(
             data=[self.covariates],
             index=ix_tpts,
-            columns=[covariate_names],
+            columns=covariate_names,
         )
         return df_covariates
